@@ -1474,18 +1474,18 @@ def run_windowed(ctx):
     windows = [(None, 1), (None, 2), (1, None), (1, 3), (0, 5), (2, 2), 'i0', 'i1', 'limit2', (None, 0)]
     for ci, (kind, vs) in enumerate(cases):
         if kind == 'eq':
-            clause, pred = cls.q.s == vs[0], (lambda r: r == vs[0])
+            mk, pred = (lambda: cls.q.s == vs[0]), (lambda r: r == vs[0])
         elif kind == 'ne':
-            clause, pred = cls.q.s != vs[0], (lambda r: r != vs[0])
+            mk, pred = (lambda: cls.q.s != vs[0]), (lambda r: r != vs[0])
         elif kind == 'in':
-            clause, pred = sb.IN(cls.q.s, vs), (lambda r: r in vs)
+            mk, pred = (lambda: sb.IN(cls.q.s, vs)), (lambda r: r in vs)
         elif kind == 'contains':
-            clause, pred = cls.q.s.contains(vs[0]), (lambda r: fold(vs[0]) in fold(r))
+            mk, pred = (lambda: cls.q.s.contains(vs[0])), (lambda r: fold(vs[0]) in fold(r))
         else:
-            clause, pred = cls.q.s.startswith(vs[0]), (lambda r: fold(r).startswith(fold(vs[0])))
+            mk, pred = (lambda: cls.q.s.startswith(vs[0])), (lambda r: fold(r).startswith(fold(vs[0])))
         full = [i for i in ids if pred(rows[i])]
-        base = cls.select(clause, orderBy='id')
         for w in [windows[(ci + j) % len(windows)] for j in range(3)]:
+            base = cls.select(mk(), orderBy='id')
             desc = {'kind': kind, 'values': [enc(v) for v in vs], 'window': w}
             ctx.case(('win', kind, tuple(vs), w), kind='windowed:' + kind)
             sel = None
@@ -1525,7 +1525,7 @@ def run_windowed(ctx):
                 continue
             for d in DIALECTS:
                 try:
-                    plain = sqlrepr(base.queryForSelect(), d)
+                    plain = sqlrepr(cls.select(mk(), orderBy='id').queryForSelect(), d)
                     text = sqlrepr(sel.queryForSelect(), d)
                 except Exception:
                     ctx.count('windowed: not rendered for %s' % d)
